@@ -9,14 +9,19 @@
    [ops] on a fresh network of configuration [c] (either bus flavour, any node ids, any PDO maps);
    [task_of s p] the handle producer p holds; [bus_alive b t] task t of the bus is transmitting;
    [carries bt pt] bus task bt repeats exactly the frame/period of PeriodicMessageTask pt;
-   [current s p pt] pt holds what the API state of p says (id, payload, period, remote flag). *)
+   [frame_current s p pt] pt holds what the API state of p says as far as only calls can change it
+   (SYNC / heartbeat / guarding: id, payload, remote flag; heartbeat: period and state byte);
+   [attrs_current s p pt] pt agrees with the ASSIGNABLE attributes SyncProducer.period, PdoMap.cob_id,
+   PdoMap.period (ops SyncSetPeriod / PdoSetCob / PdoSetPeriod model the assignments). *)
 From Coq Require Import ZArith List Bool.
 From CV Require Import Base.Val Base.Tys Gen.NmtTables Gen.PeriodicTables Model.Periodic Proofs.Periodic_proofs.
 Import ListNotations.
 Open Scope Z_scope.
 
 (* The set of live bus tasks equals the set of handles held by producers: every handle points to a
-   live task carrying the producer's current CAN id, payload, period and remote flag; two producers
+   live task repeating exactly the frame and period of its PeriodicMessageTask, which holds the
+   producer's current frame (frame_current; the assignable attributes cob_id / period are covered by
+   C17_restart_leaves_one and the two C17_attributes theorems); two producers
    never share a task (each producer holds at most one handle by construction); and every live task
    is held by some producer (nothing leaks, no earlier task keeps transmitting). *)
 Theorem C17_no_leak_invariant : forall c ops,
@@ -24,7 +29,7 @@ Theorem C17_no_leak_invariant : forall c ops,
   ((forall p pt, task_of s p = Some pt -> carries (bus_get (st_bus s) (pt_tid pt)) pt) /\
    (forall p q pt qt, task_of s p = Some pt -> task_of s q = Some qt -> pt_tid pt = pt_tid qt -> p = q) /\
    (forall t, bus_alive (st_bus s) t = true -> exists p pt, task_of s p = Some pt /\ pt_tid pt = t)) /\
-  (forall p pt, task_of s p = Some pt -> current s p pt).
+  (forall p pt, task_of s p = Some pt -> frame_current s p pt).
 Proof. exact no_leak_invariant. Qed.
 
 (* after stop() of any producer, in any reachable state: it holds no handle and every task still
@@ -43,20 +48,42 @@ Theorem C17_heartbeat_zero_stops : forall c ops,
      0 < hb_ms (st_hb s) /\ bt_period (bus_get (st_bus s) (pt_tid pt)) = hb_ms (st_hb s)).
 Proof. exact heartbeat_zero_stops. Qed.
 
-(* a start that returns normally, in any reachable state (running or not): the producer holds a task
-   created by this very call, with the requested frame and period, and the task it held before is dead.
+(* a start / restart that returns normally, in any reachable state (running or not, with the period
+   given or omitted, after any attribute assignments): the producer holds a task created by this very
+   call, carrying the producer's CURRENT CAN id (PdoMap.cob_id as it is at the call), payload and period
+   (the argument, or the period attribute when omitted), and the task it held before is dead.
    With C17_no_leak_invariant for the new state: exactly one task of this producer is transmitting. *)
 Theorem C17_restart_leaves_one : forall c ops,
   let s := run (init c) ops in
-  (forall x, snd (step s (SyncStart (Some x))) = None ->
-     started s (step_st s (SyncStart (Some x))) PSync SYNC_COB_ID [] x false) /\
-  (forall i x pd, nth_error (st_pdos s) i = Some pd -> snd (step s (PdoStart i (Some x))) = None ->
-     started s (step_st s (PdoStart i (Some x))) (PPdo i) (pd_cob pd) (pd_data pd) x false) /\
+  (forall p x, eff_period p (sy_period (st_sync s)) = Some x -> snd (step s (SyncStart p)) = None ->
+     started s (step_st s (SyncStart p)) PSync SYNC_COB_ID [] x false) /\
+  (forall i p x pd, nth_error (st_pdos s) i = Some pd -> eff_period p (pd_period pd) = Some x ->
+     snd (step s (PdoStart i p)) = None ->
+     started s (step_st s (PdoStart i p)) (PPdo i) (pd_cob pd) (pd_data pd) x false) /\
   (forall ms, 0 < ms -> snd (step s (HbStart ms)) = None ->
      started s (step_st s (HbStart ms)) PHb (HB_BASE + hb_node (st_hb s)) [hb_state (st_hb s)] ms false) /\
   (forall x, snd (step s (GuardStart x)) = None ->
      started s (step_st s (GuardStart x)) PGuard (HB_BASE + gd_node (st_guard s)) [] x true).
 Proof. exact restart_leaves_one. Qed.
+
+(* CAN id and period against the assignable attributes: a start that returns normally makes the task
+   agree with them (in ANY state), and the agreement persists over every further call sequence that
+   does not assign an attribute of that producer; in particular (ops1 = []) it holds throughout
+   every history without attribute assignments. *)
+Theorem C17_attributes_current_after_start : forall s,
+  (forall p, snd (step s (SyncStart p)) = None ->
+     forall pt, task_of (step_st s (SyncStart p)) PSync = Some pt -> attrs_current (step_st s (SyncStart p)) PSync pt) /\
+  (forall i p, snd (step s (PdoStart i p)) = None ->
+     forall pt, task_of (step_st s (PdoStart i p)) (PPdo i) = Some pt ->
+                attrs_current (step_st s (PdoStart i p)) (PPdo i) pt).
+Proof. exact start_sets_attrs. Qed.
+
+Theorem C17_attributes_stay_current : forall c ops1 ops2 p,
+  let s := run (init c) ops1 in
+  (forall pt, task_of s p = Some pt -> attrs_current s p pt) ->
+  (forall o, In o ops2 -> touches o p = false) ->
+  forall pt, task_of (run s ops2) p = Some pt -> attrs_current (run s ops2) p pt.
+Proof. exact attrs_stay_current. Qed.
 
 (* Network.disconnect: no PDO map (of any node, rx or tx) holds a task afterwards, and whatever is
    still transmitting belongs to a producer that is not a PDO map *)
@@ -102,7 +129,7 @@ Qed.
 
 Example C17_nv_restart :
   let s := run (init (nv_cfg true)) nv_ops in
-  task_of s PSync <> None /\ snd (step s (SyncStart (Some 50))) = None /\
+  task_of s PSync <> None /\ snd (step s (SyncStart (Some 50))) = None /\ snd (step s (SyncStart None)) = None /\
   (exists pd, nth_error (st_pdos s) 0 = Some pd /\ pd_task pd <> None /\ snd (step s (PdoStart 0 (Some 20))) = None) /\
   task_of s PHb <> None /\ snd (step s (HbStart 5)) = None /\
   task_of s PGuard <> None /\ snd (step s (GuardStart 1)) = None.
@@ -123,9 +150,22 @@ Example C17_nv_disconnect :
                                          VL [VZ 7; VZ 1795; VB []; VZ 400; VBool true]].
 Proof. vm_compute. repeat split; discriminate. Qed.
 
+(* COB-ID and period attribute assigned while running, then start() without a period: the surviving
+   task is a new one on the new COB-ID with the new period (both flavours give the same live set here) *)
+Example C17_nv_attributes :
+  let ops := [PdoStart 0 (Some 100); PdoSetCob 0 450; PdoSetPeriod 0 (Some 200); PdoStart 0 None] in
+  let s3 := run (init (nv_cfg false)) (firstn 3 ops) in
+  snd (step s3 (PdoStart 0 None)) = None /\ touches (PdoSetCob 0 450) (PPdo 0) = true /\
+  live_view s3 = VL [VL [VZ 0; VZ 515; VB [0; 0; 0]; VZ 100; VBool false]] /\
+  live_view (run (init (nv_cfg false)) ops) = VL [VL [VZ 1; VZ 450; VB [0; 0; 0]; VZ 200; VBool false]] /\
+  live_view (run (init (nv_cfg true)) ops) = VL [VL [VZ 1; VZ 450; VB [0; 0; 0]; VZ 200; VBool false]].
+Proof. vm_compute. repeat split. Qed.
+
 Print Assumptions C17_no_leak_invariant.
 Print Assumptions C17_stopped_means_none.
 Print Assumptions C17_heartbeat_zero_stops.
 Print Assumptions C17_restart_leaves_one.
+Print Assumptions C17_attributes_current_after_start.
+Print Assumptions C17_attributes_stay_current.
 Print Assumptions C17_disconnect_stops_pdo_tasks.
 Print Assumptions C17_pdo_payload_current.
